@@ -35,10 +35,16 @@ def demo_target(demo):
     return m.group(1) if m else "multiboot2"
 
 
-def run_demo(wt, crate, name, release=False):
-    cmd = "cargo test --offline -p %s --test %s %s 2>&1" % (crate, name, "--release" if release else "")
+def run_demo(wt, crate, name, release=False, extra=""):
+    cmd = "cargo test --offline -p %s --test %s %s %s 2>&1" % (crate, name, "--release" if release else "", extra)
     rc, out = sh(cmd, cwd=wt, timeout=1800)
     return rc, out
+
+
+def demo_extra(demo):
+    """a demonstration whose header names --no-default-features is also run in that feature configuration"""
+    head = "".join(open(demo).readlines()[:12])
+    return "--no-default-features" if "--no-default-features" in head else ""
 
 
 def main():
@@ -58,9 +64,13 @@ def main():
         name = "seeded_demo"
         os.makedirs(os.path.join(wt, crate, "tests"), exist_ok=True)
         shutil.copy(demo, os.path.join(wt, crate, "tests", name + ".rs"))
+        extra = demo_extra(demo)
         rc0, out0 = run_demo(wt, crate, name)
         rc0r, out0r = run_demo(wt, crate, name, release=True)
         res["demo_without_patch"] = dict(dev_rc=rc0, release_rc=rc0r)
+        if extra:
+            rc0x, _ = run_demo(wt, crate, name, extra=extra)
+            res["demo_without_patch"]["nodefault_rc"] = rc0x
         rc, out = sh("git apply %s" % patch, cwd=wt)
         res["patch_applies"] = rc == 0
         if rc != 0:
@@ -74,12 +84,19 @@ def main():
             rc1, out1 = run_demo(wt, crate, name)
             rc1r, out1r = run_demo(wt, crate, name, release=True)
             res["demo_with_patch"] = dict(dev_rc=rc1, release_rc=rc1r, tail=(out1 if rc1 else out1r)[-600:])
+            if extra:
+                rc1x, out1x = run_demo(wt, crate, name, extra=extra)
+                res["demo_with_patch"]["nodefault_rc"] = rc1x
+                if rc1x and not (rc1 or rc1r):
+                    res["demo_with_patch"]["tail"] = out1x[-600:]
     finally:
         sh("git -C %s worktree remove --force %s" % (REPO, wt))
         shutil.rmtree(wt, ignore_errors=True)
     ok = res.get("patch_applies") and res.get("suite_with_patch_rc") == 0 and \
         res["demo_without_patch"]["dev_rc"] == 0 and res["demo_without_patch"]["release_rc"] == 0 and \
-        (res["demo_with_patch"]["dev_rc"] != 0 or res["demo_with_patch"]["release_rc"] != 0)
+        res["demo_without_patch"].get("nodefault_rc", 0) == 0 and \
+        (res["demo_with_patch"]["dev_rc"] != 0 or res["demo_with_patch"]["release_rc"] != 0 or
+         res["demo_with_patch"].get("nodefault_rc", 0) != 0)
     res["valid_seed"] = bool(ok)
     if ok:
         import fcntl
